@@ -59,7 +59,8 @@ def keysData : Op → Bool
 
 def natStr (n : Nat) : String := toString n
 
-/-- `strconv.FormatFloat(f, 'f', -1, 64)` for NaN, ±Inf, ±0 and multiples of 1/8 below 2^20 -/
+/-- `Float.Inspect`: `strconv.FormatFloat(f, 'f', -1, 64)` for NaN, ±Inf, ±0 and multiples of 1/8 below 2^20,
+with `.0` appended to an integral value (C14 fix: it then reads back as a float) -/
 def inspectFloat (f : F64) : Option String :=
   if f.isNaN then some "NaN"
   else if f.expo == 2047 then some (if f.sign then "-Inf" else "+Inf")
@@ -70,7 +71,7 @@ def inspectFloat (f : F64) : Option String :=
     let n := sc / unit       -- |f| * 8
     let ip := n / 8
     let fr := n % 8 * 125    -- thousandths
-    let frs := if fr == 0 then "" else
+    let frs := if fr == 0 then ".0" else
       let s := (if fr < 100 then "0" else "") ++ natStr fr
       "." ++ String.ofList (s.toList.reverse.dropWhile (· == '0')).reverse
     some ((if f.sign then "-" else "") ++ natStr ip ++ frs)
